@@ -30,12 +30,19 @@ pub struct Workload {
 }
 
 pub fn workload(max_shapes: usize, shx_samples: u16) -> BoxedStrategy<Workload> {
-    (gen::ty13(), gen::profile_mix())
-        .prop_flat_map(move |(ty, p)| {
+    (gen::ty13(), gen::profile_mix(), 0u8..12)
+        .prop_flat_map(move |(ty, p, big)| {
             let cfg = gen::GenCfg::new(p, true, 3, 5);
-            (1..=max_shapes).prop_flat_map(move |n| {
+            // one workload in twelve carries shapes with 130-200 points in a part (block / threshold effects)
+            let g = if big == 0 {
+                gen::geom_sized(ty, gen::GenCfg::new(p, true, 2, 200), 1..=2, 130..=200)
+            } else {
+                gen::geom(ty, cfg)
+            };
+            let max_n = if big == 0 { 2 } else { max_shapes };
+            (1..=max_n).prop_flat_map(move |n| {
                 (
-                    proptest::collection::vec(gen::geom(ty, cfg), n),
+                    proptest::collection::vec(g.clone(), n),
                     proptest::collection::vec(prop_oneof![5 => Just(0u8), 3 => Just(1u8), 1 => Just(2u8)], n + 1),
                 )
                     .prop_map(move |(geoms, fins)| Workload {
